@@ -73,6 +73,53 @@ DETAIL = "idempotent producer gives up on (transactional_id, expired, error, can
 '''
 
 
+# replay: the real handler over real ProduceResponse objects of every version, one batch per error code
+_HANDLE_RESPONSE_SCRIPT = '''
+import asyncio, logging
+logging.disable(logging.CRITICAL)
+from unittest import mock
+from aiokafka import errors as E
+from aiokafka.protocol import produce as P
+from aiokafka.producer.sender import SendProduceReqHandler
+from aiokafka.producer.transaction_manager import TransactionManager
+from aiokafka.producer.message_accumulator import MessageBatch, BatchBuilder
+from aiokafka.structs import TopicPartition
+CODES = [0, 46, 3, 5, 6, 7, 19, 20, 56, 1, 10, 17, 18, 29, 45, 47, 48]
+def part(version, index, code):
+    if version < 2: return (index, code, 100 + index)
+    if version < 5: return (index, code, 100 + index, -1)
+    if version < 8: return (index, code, 100 + index, -1, 0)
+    return (index, code, 100 + index, -1, 0, [], None)
+async def main():
+    bad = []
+    for tid in (None, "idempotent", "txn-1"):
+        for version in range(0, 9):
+            cls = getattr(P, "ProduceResponse_v%d" % version, None)
+            if cls is None: continue
+            snd = mock.MagicMock()
+            snd._txn_manager = None if tid is None else TransactionManager(None if tid == "idempotent" else tid, 1000)
+            batches = {}
+            for i, code in enumerate(CODES):
+                b = BatchBuilder(1 << 16, 0, is_transactional=False)
+                b.append(timestamp=None, key=None, value=b"v")
+                batches[TopicPartition("t", i)] = MessageBatch(TopicPartition("t", i), b, 10 ** 6, 0)
+            h = SendProduceReqHandler(snd, batches)
+            parts = [part(version, i, code) for i, code in enumerate(CODES)]
+            resp = cls([("t", parts)]) if version == 0 else cls([("t", parts)], 0)
+            h.handle_response(resp)
+            for i, code in enumerate(CODES):
+                batch = batches[TopicPartition("t", i)]
+                n = h._to_reenqueue.count(batch) + (1 if batch.future.done() else 0)
+                if batch.future.done() and batch.future.exception() is not None: batch.future.exception()
+                if n != 1:
+                    bad.append((tid, version, code, E.for_code(code).__name__, "settled/queued %d times" % n))
+    return bad
+bad = asyncio.run(main())
+VIOLATED = bool(bad)
+DETAIL = "batches answered by a Produce response that were neither settled nor queued for a retry exactly once (producer kind, version, code, error, what): %r" % (bad[:4],) if bad else "ok"
+'''
+
+
 # ---- produce response decoding per API version (C02) ----------------------------------------
 from .common import tp_ctor      # noqa: E402
 
@@ -103,9 +150,17 @@ def _(c):
     c.requires("0 <= response.API_VERSION <= 8", "a-produce-version-the-client-implements")
     c.modifies("self._to_reenqueue", "Future.state", "Future.nres", "Future.res", "Future.exc")
     c.call("self._client.force_metadata_update", note="requests a metadata refresh; touches nothing modelled here")
+    # C02 "exactly-once resolution", C01 "a retriable failure is retried": every batch the response answers is settled -
+    # acknowledged, failed, or handed back for a retry - exactly once, none is dropped on the floor (its future would stay
+    # pending for ever and the partition's later batches would overtake it)
+    c.ghost("$open", INT, "0")
+    c.hook("after", "self._batches.get", [("set", "$open", "$open + ite(result is not None, 1, 0)")])
     INV = [("response-fixed", "response.API_VERSION == old(response.API_VERSION) and response.topics == old(response.topics)"
             " and self._batches == old(self._batches) and self._sender == old(self._sender)"
-            " and self._sender._txn_manager == old(self._sender._txn_manager)")]
+            " and self._sender._txn_manager == old(self._sender._txn_manager)"),
+           ("every-answered-batch-so-far-is-settled-or-queued-for-a-retry-exactly-once", "$open == 0")]
+    c.ensures("every-answered-batch-is-settled-or-queued-for-a-retry-exactly-once", "$open == 0")
+    c.replay_fn = lambda model, ob=None: {"script": _HANDLE_RESPONSE_SCRIPT}
     c.loop(0, header="for topic, partitions in response.topics", invariants=INV)
     c.loop(1, header="for partition_info in partitions", invariants=INV)
     # what reaches MessageBatch.done() are the fields the response schema of *that* version puts there
@@ -117,13 +172,17 @@ def _(c):
         ("assert", "only-on-success-or-duplicate", "error == Errors.NoError or error == DuplicateSequenceNumber"),
         ("assert", "batch-of-that-partition", "tp.topic == topic and tp.partition == partition_info[0]"
          " and self._batches[tp] == batch"),
+        ("set", "$open", "$open - 1"),
     ])
     c.hook("before", "batch.failure", [
         ("assert", "idempotent-producer-never-fails-a-retriable-error",
          "implies(self._sender._txn_manager is not None, not error.retriable)"),
+        ("set", "$open", "$open - 1"),
     ])
     c.hook("before", "self._to_reenqueue.append", [
         ("assert", "only-retriable-errors-are-retried", "error.retriable"),
+        ("assert", "the-answered-batch-is-what-is-retried", "a0 == batch"),
+        ("set", "$open", "$open - 1"),
     ])
 
 
